@@ -455,7 +455,8 @@ def _unary(case):
             acc("rpy/deg/yxz", lambda o: o.rpy(unit="deg", order="yxz"), layouts=True)
             acc("eul", lambda o: o.eul(), layouts=True)
             acc("eul/deg", lambda o: o.eul(unit="deg"), layouts=True)
-            objm("SO3", lambda o: o.SO3()) if False else None
+            objm("SO3()", lambda o: o.SO3())
+            objm("SE3()", lambda o: o.SE3())
     else:
         objm("inv", lambda o: o.inv())
         acc("S", lambda o: o.S)
